@@ -298,6 +298,7 @@ pub mod tuple {
 pub mod audit {
     use crate::{
         Database,
+        io::pager::SharedPager,
         schema::{base::{Relation, Schema}, meta_index_schema, meta_table_schema},
         storage::{
             BtreeMetadata, BtreeOps,
@@ -321,6 +322,8 @@ pub mod audit {
         pub free_space: u32,
         pub used_bytes: usize,
         pub depth: usize,
+        /// key columns of every cell, in slot order (filled in by `tree::Tree::graph` only)
+        pub keys: Vec<Vec<crate::types::DataType>>,
     }
 
     #[derive(Debug, Clone, Default)]
@@ -356,7 +359,7 @@ pub mod audit {
         pub errors: Vec<String>,
     }
 
-    fn walk_chain(db: &Database, head: PageId, limit: u64) -> Result<Vec<u64>, String> {
+    pub(super) fn walk_chain(pager: &SharedPager, head: PageId, limit: u64) -> Result<Vec<u64>, String> {
         let mut out = Vec::new();
         let mut seen = HashSet::new();
         let mut cur = Some(head);
@@ -368,8 +371,7 @@ pub mod audit {
                 return Err(format!("chain from {head} loops at page {id}"));
             }
             out.push(id);
-            cur = db
-                .pager
+            cur = pager
                 .write()
                 .with_page::<OverflowPage, _, _>(id, |p| p.next())
                 .map_err(|e| format!("chain from {head}: page {id}: {e}"))?;
@@ -377,7 +379,7 @@ pub mod audit {
         Ok(out)
     }
 
-    fn walk_tree(db: &Database, object_id: u64, name: &str, root: PageId, limit: u64, schema: &Schema) -> TreeInfo {
+    pub(super) fn walk_tree(pager: &SharedPager, object_id: u64, name: &str, root: PageId, limit: u64, schema: &Schema) -> TreeInfo {
         let mut t = TreeInfo { object_id, name: name.to_string(), root, ..Default::default() };
         t.columns = schema.columns().iter().map(|c| format!("{}:{:?}", c.name(), c.datatype())).collect();
         let mut stack = vec![(root, 0usize)];
@@ -392,7 +394,7 @@ pub mod audit {
                 t.errors.push(format!("page {id} reached twice inside the tree"));
                 continue;
             }
-            let decoded = db.pager.write().with_page::<BtreePage, _, _>(id, |p| {
+            let decoded = pager.write().with_page::<BtreePage, _, _>(id, |p| {
                 let mut bad = Vec::new();
                 let mut n = 0;
                 if p.is_leaf() {
@@ -413,7 +415,7 @@ pub mod audit {
                 t.cells += n;
                 t.undecodable.extend(bad);
             }
-            let info = db.pager.write().with_page::<BtreePage, _, _>(id, |p| PageInfo {
+            let info = pager.write().with_page::<BtreePage, _, _>(id, |p| PageInfo {
                 id,
                 leaf: p.is_leaf(),
                 slots: p.num_slots(),
@@ -424,6 +426,7 @@ pub mod audit {
                 free_space: p.metadata().free_space(),
                 used_bytes: p.used_bytes(),
                 depth,
+                keys: Vec::new(),
             });
             match info {
                 Ok(info) => {
@@ -441,7 +444,7 @@ pub mod audit {
         heads.sort_unstable();
         heads.dedup();
         for h in heads {
-            match walk_chain(db, h, limit) {
+            match walk_chain(pager, h, limit) {
                 Ok(c) => t.chains.push((h, c)),
                 Err(e) => t.errors.push(e),
             }
@@ -462,14 +465,14 @@ pub mod audit {
             a.page_size = pager.page_size();
         }
         if let Some(first) = a.first_free {
-            match walk_chain(db, first, a.total_pages) {
+            match walk_chain(&db.pager, first, a.total_pages) {
                 Ok(c) => a.free_list = c,
                 Err(e) => a.errors.push(format!("free list: {e}")),
             }
         }
         let (meta_table, meta_index) = db.catalog.verif_roots();
-        a.trees.push(walk_tree(db, 0, "<meta table>", meta_table, a.total_pages, &meta_table_schema()));
-        a.trees.push(walk_tree(db, 0, "<meta index>", meta_index, a.total_pages, &meta_index_schema()));
+        a.trees.push(walk_tree(&db.pager, 0, "<meta table>", meta_table, a.total_pages, &meta_table_schema()));
+        a.trees.push(walk_tree(&db.pager, 0, "<meta index>", meta_index, a.total_pages, &meta_index_schema()));
 
         // every relation the meta table stores
         let schema = meta_table_schema();
@@ -510,7 +513,7 @@ pub mod audit {
             let mut t = if dead {
                 TreeInfo { object_id: oid, name: name.clone(), root, ..Default::default() }
             } else {
-                walk_tree(db, oid, &name, root, a.total_pages, &schema)
+                walk_tree(&db.pager, oid, &name, root, a.total_pages, &schema)
             };
             t.created_by = xmin;
             t.creator_aborted = aborted.contains(&xmin);
@@ -519,5 +522,166 @@ pub mod audit {
             a.trees.push(t);
         }
         a
+    }
+}
+
+/// One B+tree on a scratch pager (C10): the raw entry points the heap and the indexes use, a scan, a lookup and the page graph.
+pub mod tree {
+    use super::audit::{TreeInfo, walk_chain, walk_tree};
+    use crate::{
+        DBConfig,
+        io::pager::{Pager, SharedPager},
+        schema::base::{Column, Schema},
+        storage::{
+            page::BtreePage,
+            tuple::{Row, Tuple, TupleBuilder},
+        },
+        tree::{
+            accessor::{BtreeReadAccessor, BtreeWriteAccessor, Position},
+            bplustree::{Btree, SearchResult},
+        },
+        types::{DataType, DataTypeKind, PageId},
+    };
+    use std::path::{Path, PathBuf};
+
+    pub struct Tree {
+        pager: SharedPager,
+        root: PageId,
+        schema: Schema,
+        min_keys: usize,
+        siblings: usize,
+        path: PathBuf,
+    }
+
+    impl Tree {
+        /// A fresh database file holding one empty tree; `kinds` are the column types, the first `num_keys` are the key.
+        pub fn create(path: impl AsRef<Path>, config: DBConfig, kinds: &[DataTypeKind], num_keys: usize) -> Result<Self, String> {
+            let pager = Pager::from_config(config, path.as_ref()).map_err(|e| e.to_string())?;
+            let pager = SharedPager::from(pager);
+            let root = pager.write().allocate_page::<BtreePage>().map_err(|e| e.to_string())?;
+            let columns = kinds.iter().enumerate().map(|(i, k)| Column::new_with_defaults(*k, &format!("c{i}"))).collect();
+            Ok(Self {
+                pager,
+                root,
+                schema: Schema::new_table_with_num_keys(columns, num_keys),
+                min_keys: config.min_keys_per_page,
+                siblings: config.num_siblings_per_side,
+                path: path.as_ref().to_path_buf(),
+            })
+        }
+
+        fn writer(&self) -> Btree<BtreeWriteAccessor> {
+            Btree::new(self.root, self.pager.clone(), self.min_keys, self.siblings).with_accessor(BtreeWriteAccessor::new())
+        }
+
+        fn reader(&self) -> Btree<BtreeReadAccessor> {
+            Btree::new(self.root, self.pager.clone(), self.min_keys, self.siblings).with_accessor(BtreeReadAccessor::default())
+        }
+
+        fn tuple(&self, row: Vec<DataType>) -> Result<Tuple, String> {
+            TupleBuilder::from_schema(&self.schema).build(&Row::from(row), 1).map_err(|e| e.to_string())
+        }
+
+        fn key_tuple(&self, key: Vec<DataType>) -> Result<Tuple, String> {
+            let mut row = key;
+            row.resize(self.schema.num_columns(), DataType::Null);
+            self.tuple(row)
+        }
+
+        pub fn insert(&mut self, row: Vec<DataType>) -> Result<(), String> {
+            let t = self.tuple(row)?;
+            self.writer().insert(self.root, t, &self.schema).map_err(|e| e.to_string())
+        }
+
+        pub fn update(&mut self, row: Vec<DataType>) -> Result<(), String> {
+            let t = self.tuple(row)?;
+            self.writer().update(self.root, t, &self.schema).map_err(|e| e.to_string())
+        }
+
+        pub fn upsert(&mut self, row: Vec<DataType>) -> Result<(), String> {
+            let t = self.tuple(row)?;
+            self.writer().upsert(self.root, t, &self.schema).map_err(|e| e.to_string())
+        }
+
+        pub fn remove(&mut self, key: Vec<DataType>) -> Result<(), String> {
+            let t = self.key_tuple(key)?;
+            self.writer().remove_tuple(self.root, &t, &self.schema).map_err(|e| e.to_string())
+        }
+
+        /// The stored row with this key, if any.
+        pub fn search(&mut self, key: Vec<DataType>) -> Result<Option<Vec<DataType>>, String> {
+            let t = self.key_tuple(key)?;
+            let mut tree = self.reader();
+            match tree.search_tuple(&t, &self.schema).map_err(|e| e.to_string())? {
+                SearchResult::Found(pos) => {
+                    let schema = &self.schema;
+                    let row = tree
+                        .with_cell_at(pos, |bytes| Row::from_bytes_checked(bytes, schema))
+                        .map_err(|e| e.to_string())?
+                        .map_err(|e| e.to_string())?;
+                    Ok(Some(row.into_inner().into_vec()))
+                }
+                SearchResult::NotFound(_) => Ok(None),
+            }
+        }
+
+        /// Every row, following the leaf links from the left-most (`backward`: from the right-most) leaf.
+        pub fn scan(&mut self, backward: bool) -> Result<Vec<Vec<DataType>>, String> {
+            let mut tree = self.reader();
+            if tree.is_empty().map_err(|e| e.to_string())? {
+                return Ok(Vec::new());
+            }
+            let iter = if backward { tree.into_iter_backward() } else { tree.iter_forward() }.map_err(|e| e.to_string())?;
+            let mut out = Vec::new();
+            let mut cells = self.reader();
+            for pos in iter {
+                let pos = pos.map_err(|e| e.to_string())?;
+                let schema = &self.schema;
+                let row = cells
+                    .with_cell_at(pos, |bytes| Row::from_bytes_checked(bytes, schema))
+                    .map_err(|e| e.to_string())?
+                    .map_err(|e| e.to_string())?;
+                out.push(row.into_inner().into_vec());
+            }
+            Ok(out)
+        }
+
+        /// The page graph of the tree, with the key columns of every cell.
+        pub fn graph(&mut self) -> TreeInfo {
+            let total = self.pager.read().header_unchecked().total_pages;
+            let mut info = walk_tree(&self.pager, 0, "tree", self.root, total, &self.schema);
+            let nk = self.schema.num_keys();
+            let mut tree = self.reader();
+            for page in info.pages.iter_mut() {
+                for slot in 0..page.slots {
+                    let schema = &self.schema;
+                    let keys = tree.with_cell_at(Position::new(page.id, slot), |bytes| Row::from_bytes_checked(bytes, schema));
+                    match keys {
+                        Ok(Ok(row)) => page.keys.push(row.into_inner().into_vec().into_iter().take(nk).collect()),
+                        Ok(Err(e)) => info.errors.push(format!("page {} slot {slot}: {e}", page.id)),
+                        Err(e) => info.errors.push(format!("page {} slot {slot}: {e}", page.id)),
+                    }
+                }
+            }
+            info
+        }
+
+        /// (pages of the file, free list)
+        pub fn pages(&self) -> (u64, Vec<u64>) {
+            let (total, first) = {
+                let p = self.pager.read();
+                (p.header_unchecked().total_pages, p.header_unchecked().first_free_page)
+            };
+            (total, first.and_then(|f| walk_chain(&self.pager, f, total).ok()).unwrap_or_default())
+        }
+
+        /// Releases every page of the tree (what DROP does).
+        pub fn dealloc(&mut self) -> Result<(), String> {
+            self.writer().dealloc().map_err(|e| e.to_string())
+        }
+
+        pub fn path(&self) -> &Path {
+            &self.path
+        }
     }
 }
